@@ -19,7 +19,7 @@ EXIT_OK, EXIT_VIOLATION, EXIT_HARNESS = 0, 1, 3
 
 class Case(object):
     def __init__(self, name, fn, params=None, timeout=60.0, max_paths=64, feas_timeout=10.0, twiddle_base=None,
-                 expect_sat=False, lemma=False, max_decisions=200, cvc5=False):
+                 expect_sat=False, lemma=False, max_decisions=200, cvc5=False, max_replays=3):
         self.name = name
         self.fn = fn
         self.params = params or {}
@@ -30,6 +30,7 @@ class Case(object):
         self.lemma = lemma                # claims over fresh symbols only: a sat is inconclusive, not a violation
         self.max_decisions = max_decisions
         self.cvc5 = cvc5
+        self.max_replays = max_replays
 
 
 def load_check(cid):
@@ -76,6 +77,7 @@ def run_case(args):
     seen = {}
     paths = 0
     outcomes = {}
+    nreplays = 0
     try:
         for h, c, outcome in engine.explore(case.fn, case.params, case.max_paths, case.feas_timeout, stats,
                                             case.max_decisions):
@@ -140,7 +142,11 @@ def run_case(args):
                         rec['verdict'] = 'inconclusive'
                         rec['why'] = 'lemma over fresh symbols has a counterexample (not a violation)'
                         rec['model'] = model
+                    elif nreplays >= case.max_replays:
+                        rec['verdict'] = 'sat-unreplayed'
+                        rec['why'] = 'replay cap for this case reached (earlier counterexamples of the case were replayed)'
                     else:
+                        nreplays += 1
                         # try for a well separated witness first
                         if cl.kind == 'eq':
                             stext, snames = engine.claim_query(cl, sep=1e-3)
@@ -169,19 +175,14 @@ def run_case(args):
                      why=None if got else 'witness twin did not produce the expected counterexample',
                      witness=True, seconds=sum(r.get('seconds', 0) for r in recs), solver='z3',
                      detail=[(r.get('label'), r.get('verdict')) for r in recs][:6])]
+    smt.shutdown()
     return dict(case=case.name, records=recs, stats=stats, paths=paths, outcomes=outcomes,
                 funcs=sorted(_FUNCS), stubs=sorted(stubs.USED), wall=time.time() - t_case)
 
 
 def replay_model(cid, case, model, tier, seed, save=None):
-    job = dict(check=cid, case=case.name, tier=tier, seed=seed, model=model)
-    p = subprocess.run([sys.executable, "-W", "ignore", "-m", "symx.replay"], input=json.dumps(job), text=True,
-                       capture_output=True, cwd=ROOT, timeout=300)
-    try:
-        out = json.loads(p.stdout.strip().splitlines()[-1])
-    except Exception:
-        out = dict(error="replay process failed: %s" % (p.stderr[-500:],), reproduced=False)
-    return out
+    from symx import replay
+    return replay.run_forked(case, model)
 
 
 # ---------------------------------------------------------------------------
@@ -233,7 +234,12 @@ def finish(cid, tier, seed, mod, cases, results, t0):
         if r['verdict'] != 'violation':
             continue
         fails = (r.get('replay') or {}).get('fails') or [[r['label'], '']]
-        keys = ["%s::%s" % (r['case'], f[0]) for f in fails] + ["%s::%s" % (r['case'], r['label'])]
+        flabels = [f[0] for f in fails]
+        if r['label'] in flabels or r.get('kind') == 'witness':
+            keys = ["%s::%s" % (r['case'], r['label'])]
+        else:
+            keys = ["%s::%s" % (r['case'], l) for l in flabels]
+        r['keys'] = keys
         hit = None
         for k in known:
             if k.get('status') != 'known':
@@ -284,6 +290,8 @@ def finish(cid, tier, seed, mod, cases, results, t0):
     for r in herr[:20]:
         out_lines.append("HARNESS-ERROR %s::%s %s" % (r['case'], r['label'], r.get('why')))
     wall = time.time() - t0
+    if os.environ.get("VERIF_DUMP"):
+        json.dump(recs, open(os.environ["VERIF_DUMP"], "w"), indent=0, default=str)
     write_evidence(cid, tier, seed, mod, cases, results, recs, counts, violations, known_hits, wall)
     solved = [r for r in recs if r.get('solver')]
     print("\n".join(out_lines))
